@@ -201,8 +201,11 @@ def run_history(rec, case):
     R = hist.Runner(sim)
 
     def V(key, msg):
-        rec.viol(key, msg + ' | server=%s config=%r history=%s' % (
-            srv, skw, R.witness(40)), case)
+        rec.viol(key, msg + ' | server=%s config=%r%s history=%s' % (
+            srv, skw, (' websocket write #%d times out' %
+                       sim.ws_write_timeout_at) if getattr(
+                           sim, 'ws_write_timeout_at', None) else '',
+            R.witness(40)), case)
     try:
         modes = [rng.choice(MODES) for _ in range(rng.randint(1, 3))]
         plan = []
@@ -216,6 +219,12 @@ def run_history(rec, case):
                 return
             s.plan = m
             s.fail_left = 1 if m.startswith('fail') else 0
+        if case.get('wst') and srv == 'T':
+            # one WebSocket write of this history (after the opens) times
+            # out, once
+            sim.ws_write_timeout_at = getattr(sim, '_ws_writes', 0) + \
+                gen.mkrng('c03wst', case['seed'], case['i']).randint(1, 12)
+            rec.count('histories_with_a_write_timeout')
         nact = rng.randint(4, 22)
 
         def pause():
@@ -468,6 +477,8 @@ def run_shard(spec):
                  for k in range(spec['n'])]
         for c in cases[::2]:
             c['aio'] = 'H'
+        for c in cases[1::4]:
+            c['wst'] = True
         scen.run_cases(rec, cases, dispatch)
     return rec.result()
 
